@@ -105,10 +105,22 @@ Theorem C09_cmp_total_agrees_refuted :
 Proof. exact cmp_total_agrees_refuted_w. Qed.
 Print Assumptions C09_cmp_total_agrees_refuted.
 
-(* NOT PROVED HERE (see checks/C09.md): transitivity of cmp_total,
-     forall rk injective, forall wf a b c with same-exactness numbers and no
-     sliced lists, TransAt (cmp_total rk) a b c;
-   it is checked on every observed triple by the oracle below. *)
+(* a transitive total preorder that groups values by type: for every injective
+   order rk of the types (sliced and plain lists being two types), transitive
+   on values whose numbers are all exact resp. all floats *)
+Theorem C09_cmp_total_trans_exact : forall rk a b c,
+  injective rk -> wf a -> wf b -> wf c ->
+  nums_all is_exact a = true -> nums_all is_exact b = true -> nums_all is_exact c = true ->
+  TransAt (cmp_total rk) a b c.
+Proof. exact cmp_total_trans_exact. Qed.
+Print Assumptions C09_cmp_total_trans_exact.
+
+Theorem C09_cmp_total_trans_inexact : forall rk a b c,
+  injective rk -> wf a -> wf b -> wf c ->
+  nums_all is_float a = true -> nums_all is_float b = true -> nums_all is_float c = true ->
+  TransAt (cmp_total rk) a b c.
+Proof. exact cmp_total_trans_inexact. Qed.
+Print Assumptions C09_cmp_total_trans_inexact.
 
 (* ---- the oracle evaluated on the implementation's observations states the
    property ---- *)
